@@ -15,7 +15,12 @@ Skeleton (Python tuples), sizes in nodes:
   ('F', init, body)     for (init; cond; step) body          2 + init + body   (step is a leaf)
 Grammar classes: S2 (ParseStatement2) = L R B W F; S1 = S2 + E(t in S1, e in S1);
 S0 = S1 + I(t in S0) + E(t in S1, e in S0 not in S1).  A while/for body is S2, a
-block element is S0 or N, a for initialiser is L or N."""
+block element is S0 or N, a for initialiser is L or N.
+
+Two renderings of a leaf: the C12 one (`x = x + <id>` / `x += <id>`, the id is the
+only number literal) and, with make_case(body, rich=<salt>), the C13 one
+(Render.rich_leaf: every compound assignment of the grammar on `c<id>` /
+`q<id>[..]`, the id is in the target's name)."""
 import functools
 
 INIT_PATTERNS = {}
@@ -256,8 +261,11 @@ class Render:
         right-hand sides that are not symmetric in their operands; the leaf is
         identified by the digits of its target's name.  The choice is a fixed
         function of (salt, id)."""
-        h = ((i + 1) * 2654435761 + (self.rich + 1) * 40503) & 0xffffffff
-        h ^= h >> 13
+        m = (1 << 64) - 1
+        h = ((self.rich + 1) * 0x9E3779B97F4A7C15 + (i + 1) * 0xD1B54A32D192ED03) & m
+        h = ((h ^ (h >> 30)) * 0xBF58476D1CE4E5B9) & m
+        h = ((h ^ (h >> 27)) * 0x94D049BB133111EB) & m
+        h ^= h >> 31
         form, h = h % 16, h // 16
         tkind, h = h % 3, h // 3
         ekind, h = h % 4, h // 4
